@@ -29,10 +29,13 @@ type Config struct {
 	Store        bool   `json:"store,omitempty"`         // streamable: MemoryEventStore
 	Subset       string `json:"subset,omitempty"`        // inmem/pipe: "", "legacy", "legacy-old" (server transport advertises a subset via ProtocolVersionSupporter)
 	NoStandalone bool   `json:"no_standalone,omitempty"` // streamable client: DisableStandaloneSSE
+	// EmptySessionID (stateful streamable only) asks the caller to configure ServerOptions.GetSessionID to
+	// return "" (documented special case: no Mcp-Session-Id is issued, every request gets an ephemeral session).
+	EmptySessionID bool `json:"empty_session_id,omitempty"`
 }
 
 func (c Config) String() string {
-	return fmt.Sprintf("%s/json=%v/store=%v/subset=%s/nosse=%v", c.Kind, c.JSON, c.Store, c.Subset, c.NoStandalone)
+	return fmt.Sprintf("%s/json=%v/store=%v/subset=%s/nosse=%v/emptyid=%v", c.Kind, c.JSON, c.Store, c.Subset, c.NoStandalone, c.EmptySessionID)
 }
 
 // SubsetSupports is the version filter a "subset" server transport advertises.
